@@ -240,6 +240,16 @@ def step (st : St) (line : String) : St × List String :=
         (st, [s!"spec {id} cleanup-stalled-on-full-request-queue with the outbound request queue full and {due} retransmission(s) due, every cleanup tick took at least {ms} ms (ticks: {(kv rest "all").getD "?"} ms); posting to a full queue must fail immediately, and while the tick runs no observation, message or guardian-set update is handled"])
       else (st, [s!"ok {id}"])
     | _, _ => (st, [s!"diff {id} unparsable stall line"])
+  | "flood" :: id :: rest =>
+    -- SCALE cases: `n` valid observations by one guardian for `n` distinct digests nobody observed locally, handled one after the
+    -- other, written as ONE line (the state summary after the last one). The model does not replay the flood: from here on the case
+    -- is judged by the Spec clauses alone, evaluated on the implementation's own states (as after a `diff`).
+    if st.dead then (st, []) else
+    let iStS := (kv rest "st").getD "-"
+    if (kv rest "res").getD "?" = "panic" then
+      ({ st with dead := true, nPanics := st.nPanics + 1 }, [s!"spec {id} panic-{(((kv rest "site").getD "?").take 40).toString} flood handler panicked"])
+    else
+      ({ st with lines := st.lines + 1, prevSt := parseISt iStS, prevStS := iStS, desync := true }, [s!"ok {id}"])
   | "reqs" :: id :: rs :: _ =>
     if st.dead || st.desync then (st, []) else
     match st.pendingReqs with
@@ -439,9 +449,12 @@ def step (st : St) (line : String) : St × List String :=
               let stored := match lookupS st.ids e.digest with | some k => (iDb.lookup k).isSome | none => false
               let due := decide (age ≥ fiveMinutes) && retryDue now t.lastRetry
               let retried := (outsOf iOut).any fun o => o.startsWith "O:" && ((o.splitOn ":").getD 2 "") == e.digest
-              if e.ourMsg && !e.submitted && e.retry < maxRetries && !stored && after.isNone then
+              -- "still lacks quorum" is a fact about the history, not about the entry's own flag: the node has not published a quorum
+              -- VAA for this digest (and none is stored) — an entry merely FLAGGED submitted is still owed its retries
+              let pending := !e.submitted || !(st.published.contains e.digest)
+              if e.ourMsg && pending && e.retry < maxRetries && !stored && after.isNone then
                 errs := errs ++ [s!"spec {id} pending-entry-discarded-early entry {e.digest} (signed, no quorum, not stored, {e.retry} retries) was dropped at age {age / 1000000000}s"]
-              if e.ourMsg && !e.submitted && !stored && e.settled && e.retry < maxRetries then
+              if e.ourMsg && pending && !stored && e.settled && e.retry < maxRetries then
                 if due && !retried then
                   errs := errs ++ [s!"spec {id} no-retry-when-due entry {e.digest} is {age / 1000000000}s old, last retry due, but the observation was not re-broadcast"]
                 if !due && retried then
